@@ -479,6 +479,7 @@ func (r *run) deliver(c *knode, st step) {
 			recs = append(recs, m.rec())
 			codes = append(codes, code(err))
 			r.stats["dlv:"+m.c+":"+code(err)]++
+			r.stats["in:"+m.c]++
 		}
 	case "batch":
 		// the entry points of the asynchronous pool's reader goroutines: one state snapshot per batch, keys and packages
